@@ -106,7 +106,9 @@ D_ALPHA = ([('c', c) for c in b'a07x $#/*{}\'\n\t=' + bytes([0x80, 0xff, 1])] +
            [('hex', x) for x in (b'4', b'41', b'fF', b'0', b'00')] +
            [('cont', None)] +
            [('env', x) for x in (b'SET', b'UNSET', b'EMPTY', b'META', b'UNSET:-dflt', b'SET:-d', b'A:B', b'', b':-d',
-                                 b'UNSET:-', b'N1:x', b'a b\n"c', b'EMPTY:-d', b'SET:-', b'META:-x', b'UNSET:-a:-b', b'SET:+x')])
+                                 b'UNSET:-', b'N1:x', b'a b\n"c', b'EMPTY:-d', b'SET:-', b'META:-x', b'UNSET:-a:-b', b'SET:+x',
+                                 # the name ends at the FIRST ':' whatever follows it; only a '-' right there starts a default
+                                 b'UNSET:X:-d', b'SET:x:-d', b'A:B:-c', b'UNSET::-d', b'UNSET:=:-d', b'SET:', b'UNSET:', b':', b'::-x')])
 
 # ---- single-quoted units ----
 S_ALPHA = ([('c', c) for c in b'a0 "$#{}/*\n\t' + bytes([0x80, 0xff])] +
